@@ -67,5 +67,22 @@ Definition expected_transcripts : list transcript := [
   mkTranscript "crypto/schnorr/schnorr_proof.go" "NewZKProof" "SHA512_256i_TAGGED" "session" ["X.X"; "X.Y"; "g.X"; "g.Y"; "alpha.X"; "alpha.Y"];
   mkTranscript "crypto/schnorr/schnorr_proof.go" "ZKProof.Verify" "SHA512_256i_TAGGED" "session" ["X.X"; "X.Y"; "g.X"; "g.Y"; "alpha.X"; "alpha.Y"];
   mkTranscript "crypto/schnorr/schnorr_proof.go" "NewZKVProof" "SHA512_256i_TAGGED" "session" ["V.X"; "V.Y"; "R.X"; "R.Y"; "g.X"; "g.Y"; "alpha.X"; "alpha.Y"];
-  mkTranscript "crypto/schnorr/schnorr_proof.go" "ZKVProof.Verify" "SHA512_256i_TAGGED" "session" ["V.X"; "V.Y"; "R.X"; "R.Y"; "g.X"; "g.Y"; "alpha.X"; "alpha.Y"]
+  mkTranscript "crypto/schnorr/schnorr_proof.go" "ZKVProof.Verify" "SHA512_256i_TAGGED" "session" ["V.X"; "V.Y"; "R.X"; "R.Y"; "g.X"; "g.Y"; "alpha.X"; "alpha.Y"];
+  (* the session strings (getSSID of each protocol package): the curve OF THE RUN, the committee, the public key material, the round number, the nonce *)
+  mkTranscript "ecdsa/keygen/rounds.go" "base.getSSID" "SHA512_256i" "" ["round.EC.params.P"; "round.EC.params.N"; "round.EC.params.Gx"; "round.EC.params.Gy"; "round.parties.iDs.keys..."; "round.number"; "round.temp.ssidNonce"];
+  mkTranscript "ecdsa/resharing/rounds.go" "base.getSSID" "SHA512_256i" "" ["round.EC.params.P"; "round.EC.params.N"; "round.EC.params.B"; "round.EC.params.Gx"; "round.EC.params.Gy"; "round.parties.iDs.keys..."; "bigXjList..."; "round.input.nTildej..."; "round.input.h1j..."; "round.input.h2j..."; "round.number"; "round.temp.ssidNonce"];
+  mkTranscript "ecdsa/signing/rounds.go" "base.getSSID" "SHA512_256i" "" ["round.EC.params.P"; "round.EC.params.N"; "round.EC.params.B"; "round.EC.params.Gx"; "round.EC.params.Gy"; "round.parties.iDs.keys..."; "bigXjList..."; "round.key.nTildej..."; "round.key.h1j..."; "round.key.h2j..."; "round.number"; "round.temp.ssidNonce"];
+  mkTranscript "eddsa/keygen/rounds.go" "base.getSSID" "SHA512_256i" "" ["round.EC.params.P"; "round.EC.params.N"; "round.EC.params.Gx"; "round.EC.params.Gy"; "round.parties.iDs.keys..."; "round.number"; "round.temp.ssidNonce"];
+  mkTranscript "eddsa/signing/rounds.go" "base.getSSID" "SHA512_256i" "" ["round.EC.params.P"; "round.EC.params.N"; "round.EC.params.Gx"; "round.EC.params.Gy"; "round.parties.iDs.keys..."; "bigXjList..."; "round.number"; "round.temp.ssidNonce"]
 ].
+
+(* every session string is made of the parameters of the curve the party was configured with (never the process-wide default),
+   the whole committee, the round number and the nonce *)
+Definition mem_str (x : string) (l : list string) : bool := existsb (String.eqb x) l.
+Definition ssid_binds_run_context (t : transcript) : bool :=
+  mem_str "round.EC.params.P" (tr_args t) && mem_str "round.EC.params.N" (tr_args t) &&
+  mem_str "round.EC.params.Gx" (tr_args t) && mem_str "round.EC.params.Gy" (tr_args t) &&
+  mem_str "round.parties.iDs.keys..." (tr_args t) && mem_str "round.number" (tr_args t) && mem_str "round.temp.ssidNonce" (tr_args t).
+Definition session_strings (l : list transcript) : list transcript := calls_of l "base.getSSID".
+Definition session_strings_bind (l : list transcript) : bool :=
+  Nat.eqb (List.length (session_strings l)) 5 && forallb ssid_binds_run_context (session_strings l).
